@@ -93,6 +93,20 @@ WAL_RULE = (" WAL runs: generated entry sequences (0..many entries, clears and u
             "byte with the Lean encoder — and the REAL WalBlobReader — entries / error verdict compared with the Lean reader — plus 12 malformed kinds (truncated, bad tag, padding bits set, empty, "
             "garbage after END); PageDiff operations (set / join / pack / unpack / from_bytes); `recover`: the real bitbox DB::open on generated hash-table files and WALs (incl. partial write-outs, stale "
             "and corrupt logs) vs the Lean redo. Oracles: decode(encode x) = x on the real code, blob length a page multiple, redo reproduces the intended page, redo twice = once.")
+# the real bitbox DB::prepare_sync (hook `verif_api::bitbox_sync::PrepareSim`: bucket allocation, meta-map updates, the WAL blob, the page list
+# handed to write_ht) against the Lean mirror `PrepSync.prepareSync` (driver mode `prepsync`) — the content side of the crash argument for the hash table
+PREPSYNC_RUN = {"cmd": "prepsync", "mode": "prepsync", "cases": {"quick": 600, "thorough": 16000}, "shards": {"quick": 4, "thorough": 16}}
+PREPSYNC_RULE = (" prepare_sync runs: per case a hash table of 1..8193 buckets (tiny / small / medium / exactly one meta page / two or three meta pages) filled through the REAL prepare_sync "
+                 "(empty / sparse / half / dense / tombstone-heavy — optionally without a single empty bucket left — / full), stale leftovers in free buckets, then 1..3 syncs whose changeset mixes "
+                 "fresh pages (FreshWithNoDependents / FreshOrDependent with an empty cell), updates in place (Known / filled cell), clears, a page cleared and ANOTHER page taking the freed bucket in the same sync, "
+                 "the same page id cleared and re-created, empty changesets, pages probing from bucket 4095 / 4096, diffs with 0 / 1 / 126 slots and at the word boundary 63 / 64, fresh pages built in an un-zeroed pool page, "
+                 "diffs that omit a changed slot (F20 / the seeded `C03-wal-diff-drops-reconstruction`), and changesets outside the contract (cleared page without bucket, bucket out of range, two pages one bucket, reserved diff bit, "
+                 "a known bucket of another page, label != page id, the same page twice, a stored page announced fresh, full tables -> BucketExhaustion). One protocol line per sync: outcome, occupied_buckets, full_count, "
+                 "length + FNV-1a-64 of the WAL blob, of the new meta map and of every page of the write list with its page number (HashSet order canonicalised), the bucket of every page, the cache updates — real vs Lean mirror. "
+                 "Oracles independent of the model: the REAL recover (DB::open) on (old table file + blob) = old table + write list applied, byte for byte when every diff covers the differences, and in general equal on meta bytes / label / "
+                 "elided field / named slots with the OLD byte elsewhere (C04/C03); the write list holds only buckets of updated pages and meta pages of changed buckets, overwrites no other stored page, recovery touches no foreign bucket (C17); "
+                 "occupied_buckets = full_count = pages of a BTreeMap oracle (C19); every stored page is found by the real ProbeSequence + label check in its bucket, cleared / absent pages are not (C05); the blob read back by the real "
+                 "WalBlobReader = one entry per page with its bucket (C03); the shared cell of a FreshOrDependent page holds its bucket afterwards. distinct & non-trivial = distinct protocol lines.")
 # overlay index / value / value_iter on chains built from explicit change maps, the real BeatreeIterator on hand-built leaves and the
 # overlay / disk merges of seek through real sessions (hook H6) against the Lean mirrors (driver mode `ovl`)
 OVL_RUN = {"cmd": "overlay-index", "mode": "ovl", "cases": {"quick": 400, "thorough": 4000}, "shards": {"quick": 4, "thorough": 16}}
@@ -239,8 +253,8 @@ PROPS = {
                  {"cmd": "image-cycles", "mode": "image", "args": ["--cycles", "10", "--keys", "300"], "cases": {"quick": 1, "thorough": 1}, "corpus": True, "leaks_fail": True},
                  {"cmd": "image-cycles", "mode": "image", "args": ["--cycles", "8", "--keys", "2500"], "cases": {"quick": 0, "thorough": 1}, "corpus": True, "leaks_fail": True, "thorough_only": True},
                  {"cmd": "image-script", "mode": "image", "args": ["--focus", "script-freelist-reopen"], "cases": {"quick": 1, "thorough": 1}, "corpus": True, "leaks_fail": True},
-                 dict(IMG_RUN, leaks_fail=True), dict(ALLOC_FL), dict(ALLOC_PROBE), dict(OVERFLOW_RUN), dict(LEAFUPD_RUN), dict(BRANCHUPD_RUN)] + CRASH_IMAGES[:3],
-        "rule": IMG_RULE + ALLOC_RULE + CRASH_IMAGES_RULE + " After a crash: the occupancy reported by the HANDLE THAT RECOVERED the directory (after its follow-up commit) is compared with the full buckets of the table it leaves (counter recovered_occupancy_compared)." + " C19 (accounting): for ln and bbn every page number in [1, bump) must be in use by the decoded state (leaf / overflow / branch) or tracked by the "
+                 dict(IMG_RUN, leaks_fail=True), dict(ALLOC_FL), dict(ALLOC_PROBE), dict(PREPSYNC_RUN), dict(OVERFLOW_RUN), dict(LEAFUPD_RUN), dict(BRANCHUPD_RUN)] + CRASH_IMAGES[:3],
+        "rule": IMG_RULE + ALLOC_RULE + PREPSYNC_RULE + CRASH_IMAGES_RULE + " After a crash: the occupancy reported by the HANDLE THAT RECOVERED the directory (after its follow-up commit) is compared with the full buckets of the table it leaves (counter recovered_occupancy_compared)." + " C19 (accounting): for ln and bbn every page number in [1, bump) must be in use by the decoded state (leaf / overflow / branch) or tracked by the "
                 "free list (free-list page or listed free page), and no page may be both; the driver prints ln_leaked / bbn_leaked per snapshot and any non-zero value is reported as "
                 "`C19 leaked pages: …`; hash-table occupancy: the value returned by Nomt::hash_table_utilization().occupied at every snapshot must equal the number of full meta bytes the decoder finds (ht_full), which in turn must equal the number of merkle pages that must be stored (0 for the empty store); frontier: 10 (thorough: 8 x 2500 keys, several free-list pages) identical fill / refill-with-migrating-value-sizes / empty cycles, criterion fixed in advance: ln_bump and bbn_bump read from the meta page after the last cycle must not exceed those after cycle 4.",
         "trusted_base": IMG_TB, "assumptions": IMG_ASSUME,
@@ -312,7 +326,7 @@ PROPS = {
                   'live', 'val', 'page', 'commit', 'drop', 'dropl', 'pstatus', 'reset', 'seeknode', 'iter'],
         "tags": ['C11', 'C01', 'C02', 'C05'],
         "runs": DB_SCN(["rejected-overlay-marks-committed"]) + [DB("overlay", 200, 2000, nops=18), DB("general", 60, 600, nops=16), dict(OVL_RUN), dict(DELTA_RUNS[0]), dict(SEEK_RUN),
-                 # F23 (open): a session on a SUPERSEDED overlay chain; plus plain ABA changesets (prepared on r, competing commit rolled back) which must pass
+                 # F23 (repaired a527db9): a session on a SUPERSEDED overlay chain must be refused at finish; plus plain ABA changesets (prepared on r, competing commit rolled back) which must pass
                  {"cmd": "lockrec-aba", "cases": {"quick": 300, "thorough": 300}, "shards": {"quick": 1, "thorough": 1}, "seed": 1, "corpus": True}],
         "rule": DB_RULE + OVL_RULE + SEEK_RULE + " C11 focus: overlay trees (chains, sibling forks, dropped and committed ancestors), sessions on every live fork, wrong / incomplete / reordered ancestor lists, in-order and out-of-order overlay commits.",
         "trusted_base": API_TB, "assumptions": API_ASSUME,
@@ -329,15 +343,15 @@ PROPS = {
     # ---------------- crash / power-loss / fault enumeration (harness/src/crash.rs + cfg(nomt_verif) I/O hook) ----------------
     "C03": {
         "exclude_tags": ["C04", "C17"],
-        "runs": [dict(WAL_RUN), dict(SEGLOG_RUN), CRASH("crash", "general", 6, 60, steps=2, shards_q=6, wal=True), CRASH("crash", "rollback", 3, 30, steps=2, shards_q=3), CRASH("crash", "rollback", 3, 30, steps=2, shards_q=3, nops=12, segsize=8192),
+        "runs": [dict(WAL_RUN), dict(PREPSYNC_RUN), dict(SEGLOG_RUN), CRASH("crash", "general", 6, 60, steps=2, shards_q=6, wal=True), CRASH("crash", "rollback", 3, 30, steps=2, shards_q=3), CRASH("crash", "rollback", 3, 30, steps=2, shards_q=3, nops=12, segsize=8192),
                  CRASH("nested", "general", 2, 20, steps=1, shards_q=2), CRASH("crash", "kv", 2, 20, steps=1, shards_q=2, big=True)] + SCRIPTED("nested") + SCRIPTED("crash"),
-        "rule": CRASH_RULE + WAL_RULE + SEGLOG_RULE + " C03: process crash (every issued effect stays) at EVERY event index of the chosen operations (session commits, overlay commits, rollbacks), plus nested crashes at every event of the recovery itself (each probe on a fresh copy of the crashed directory), and two directed multi-segment rollback histories with 8 KiB rollback segments. distinct & non-trivial = distinct (operation, event index strictly inside the operation, variant) triples.",
+        "rule": CRASH_RULE + WAL_RULE + PREPSYNC_RULE + SEGLOG_RULE + " C03: process crash (every issued effect stays) at EVERY event index of the chosen operations (session commits, overlay commits, rollbacks), plus nested crashes at every event of the recovery itself (each probe on a fresh copy of the crashed directory), and two directed multi-segment rollback histories with 8 KiB rollback segments. distinct & non-trivial = distinct (operation, event index strictly inside the operation, variant) triples.",
         "trusted_base": DISK_TB, "assumptions": DISK_ASSUME,
     },
     "C04": {
         "runs": [CRASH("power", "general", 4, 40, steps=2, shards_q=4, wal=True), CRASH("power", "rollback", 2, 20, steps=2, shards_q=2), CRASH("power", "rollback", 4, 40, steps=3, shards_q=4, nops=12, segsize=8192), CRASH("power", "kv", 2, 20, steps=1, shards_q=2, big=True),
-                 CRASH("nested-power", "general", 4, 40, steps=1, shards_q=4), CRASH("nested-power", "rollback", 2, 20, steps=1, shards_q=2, nops=12, segsize=8192)] + SCRIPTED("power") + ORDER_RUNS,
-        "rule": CRASH_RULE + ORDER_RULE + " C04: at every event index the child reverts un-fsynced effects before dying: all of them, a seeded random half, and each single one (all single-loss subsets when <= 6 are pending, else a rotating single loss / single survivor); an effect counts as synced only if it COMPLETED before an fsync of its file was ISSUED and that fsync completed. Creates / unlinks of one directory are lost as a suffix in issue order (ordered metadata journal), data pages as arbitrary subsets. nested-power: a process crash at every event, then a power loss (all / a random half of the recovery's own un-fsynced effects) at every event of the recovery (found F17).",
+                 CRASH("nested-power", "general", 4, 40, steps=1, shards_q=4), CRASH("nested-power", "rollback", 2, 20, steps=1, shards_q=2, nops=12, segsize=8192)] + SCRIPTED("power") + ORDER_RUNS + [dict(PREPSYNC_RUN)],
+        "rule": CRASH_RULE + ORDER_RULE + PREPSYNC_RULE + " C04: at every event index the child reverts un-fsynced effects before dying: all of them, a seeded random half, and each single one (all single-loss subsets when <= 6 are pending, else a rotating single loss / single survivor); an effect counts as synced only if it COMPLETED before an fsync of its file was ISSUED and that fsync completed. Creates / unlinks of one directory are lost as a suffix in issue order (ordered metadata journal), data pages as arbitrary subsets. nested-power: a process crash at every event, then a power loss (all / a random half of the recovery's own un-fsynced effects) at every event of the recovery (found F17).",
         "trusted_base": DISK_TB, "assumptions": DISK_ASSUME + ["4 KiB page atomicity; tmpfs stands in for the device and the hook's journal for the page cache", "ordered metadata journal: creates / unlinks of one directory reach the disk in issue order (a suffix of the un-synced ones is lost), as on ext4 / xfs / btrfs / apfs"],
     },
     "C14": {
@@ -384,8 +398,8 @@ PROPS = {
         "runs": [{"cmd": "placement", "mode": "image", "args": ["--focus", "general", "--nops", "14"], "cases": {"quick": 24, "thorough": 320}, "shards": {"quick": 8, "thorough": 16}},
                  {"cmd": "placement", "mode": "image", "args": ["--focus", "kv", "--nops", "12", "--scale", "40", "--big"], "cases": {"quick": 4, "thorough": 32}, "shards": {"quick": 4, "thorough": 16}},
                  {"cmd": "placement", "mode": "image", "args": ["--focus", "rollback", "--nops", "14"], "cases": {"quick": 8, "thorough": 96}, "shards": {"quick": 4, "thorough": 16}},
-                 dict(ALLOC_FL), {"cmd": "placement", "mode": "image", "args": ["--focus", "script-freelist-two-pages"], "cases": {"quick": 1, "thorough": 1}, "shards": {"quick": 1, "thorough": 1}, "fixed_seed": 1, "corpus": True, "thorough_only": True}],
-        "rule": ALLOC_RULE.strip() + " Placement runs: cases = generated API histories; before EVERY state-changing operation (session commit, overlay commit, rollback) the directory is copied (pre-image) and the ordered I/O events the operation issues are recorded through the cfg(nomt_verif) hook; the Lean driver decodes the pre-image with the independent decoders (ownership marks of every ln / bbn page, allocation frontiers, file sizes) and evaluates checkPlacement on the real trace: every event before the meta-page write must not overwrite a node / overflow page / free-list page of the previous state, shrink ln / bbn, write or resize the hash table, truncate or unlink a rollback segment. distinct & non-trivial = operations that issued at least one event.",
+                 dict(ALLOC_FL), dict(PREPSYNC_RUN), {"cmd": "placement", "mode": "image", "args": ["--focus", "script-freelist-two-pages"], "cases": {"quick": 1, "thorough": 1}, "shards": {"quick": 1, "thorough": 1}, "fixed_seed": 1, "corpus": True, "thorough_only": True}],
+        "rule": ALLOC_RULE.strip() + PREPSYNC_RULE + " Placement runs: cases = generated API histories; before EVERY state-changing operation (session commit, overlay commit, rollback) the directory is copied (pre-image) and the ordered I/O events the operation issues are recorded through the cfg(nomt_verif) hook; the Lean driver decodes the pre-image with the independent decoders (ownership marks of every ln / bbn page, allocation frontiers, file sizes) and evaluates checkPlacement on the real trace: every event before the meta-page write must not overwrite a node / overflow page / free-list page of the previous state, shrink ln / bbn, write or resize the hash table, truncate or unlink a rollback segment. distinct & non-trivial = operations that issued at least one event.",
         "trusted_base": IMG_TB + ["the I/O hook reports every mutating file operation (call sites listed in DESIGN.md §5); events are observed at submission"],
         "assumptions": ["the monitor reads the pre-image through decoders that were themselves validated on every snapshot by C16's run", "worker interleavings are whatever the runs exhibit"],
     },
